@@ -31,6 +31,9 @@ type c03Case struct {
 	Declared      []string
 	GenSel        bool
 	Slots         []c03Slot
+	// OtherStopped: a second controller on the same parent and child resources (it shares every informer with
+	// this one) was started and stopped again before the cluster got its contents
+	OtherStopped bool
 }
 
 func kindByResource(res string) *sim.Kind {
@@ -67,6 +70,23 @@ func c03Run(c c03Case) []mc.Finding {
 		declared = append(declared, kindByResource(r))
 	}
 	w := newCWorld(ccOpt{parent: pk, children: declared, generateSel: c.GenSel, finalize: c.Mode > 0}, false)
+	if c.OtherStopped {
+		w2, err := attachComposite(w.Base, ccOpt{name: "c2", parent: pk, children: declared, generateSel: c.GenSel}, true)
+		if err != nil {
+			bad("setup", "second controller: %v", err)
+			return f
+		}
+		if p, stack := mc.Recover(func() { w2.PC.Stop() }); p != nil {
+			bad("panic", "stopping the second controller: %v\n%s", p, stack)
+			return f
+		}
+		for _, k := range append([]*sim.Kind{pk}, declared...) {
+			if w.Informer(k) == nil {
+				bad("shared-informer-gone", "the shared informer for %s that this controller lists its view from is gone although only ANOTHER subscriber closed its subscription: the hook would be sent a frozen view", k.Resource)
+				return f
+			}
+		}
+	}
 	parent := kit.Obj(pk, pns, "p")
 	kit.Field(parent, "puid", "metadata", "uid")
 	if c.Mode == 2 {
@@ -311,6 +331,12 @@ func TestVerifC03(t *testing.T) {
 			}
 			r.Case(c, nt, func() []mc.Finding { return c03Run(c) })
 			r.Outcome(c03Outcome)
+			if nontrivial > 0 && idx%5 == 0 {
+				c2 := c
+				c2.OtherStopped = true
+				r.Case(c2, nt+"/other-stopped", func() []mc.Finding { return c03Run(c2) })
+				r.Outcome("other-stopped " + c03Outcome)
+			}
 			if idx%5003 == 0 {
 				r.Sample(c)
 			}
